@@ -46,6 +46,7 @@ use syn::{Fields, ItemEnum};
 use crate::graph::Config;
 use crate::leaf::VariantKind;
 use crate::parser::{Definition, ErrorType, Subpatterns};
+use crate::util::MaybeVoid;
 
 const LOGOS_ATTR: &str = "logos";
 const ERROR_ATTR: &str = "error";
@@ -265,6 +266,17 @@ pub fn generate(input: TokenStream) -> TokenStream {
         callback: error_callback,
     } = parser.error_type.take().unwrap_or_default();
     let extras = parser.extras.take();
+    // The impl is written over the source lifetime: lifetimes (and type parameters) in the error
+    // and extras types are fixed up like those of the variants' fields.
+    let fix_type = |tokens: TokenStream| match syn::parse2::<syn::Type>(tokens.clone()) {
+        Ok(mut ty) => parser.get_type(&mut ty),
+        Err(_) => tokens,
+    };
+    let error_type = fix_type(error_type);
+    let extras = match extras {
+        MaybeVoid::Some(tokens) => MaybeVoid::Some(fix_type(tokens)),
+        MaybeVoid::Void => MaybeVoid::Void,
+    };
     let non_utf8_pats = pats
         .iter()
         .filter(|leaf| !leaf.pattern.hir().properties().is_utf8())
